@@ -56,3 +56,10 @@ Definition edit_apply (blob : list Z) (a : Z * Z * Z) : list Z :=
   let n := Z.to_nat pos in
   if op =? 0 then firstn n blob ++ skipn (S n) blob else firstn n blob ++ c :: skipn n blob.
 Definition ws_edit_dig (blob : list Z) (a : Z * Z * Z) : list Z := parse_dig (edit_apply blob a).
+
+(* the three views of one written tree in one pass: [bytes digest; returned count; tokens digest; parsed-tree digest] *)
+Definition written_dig (a : Z * kvs) : list Z :=
+  match write (ly_of (fst a)) (snd a) with
+  | Ok b => dig (0 :: b) ++ [write_count (ly_of (fst a)) (snd a)] ++ tok_dig b ++ parse_dig b
+  | Err e => [err_code e]
+  end.
